@@ -98,6 +98,13 @@ theorem noloc_all_none (fl : Flags) (hf : fl.noLocation = true) (toks : List Tok
     have := checkAll_noLoc fl hf _ _ _ _ _ hm
     simp [noLocAll] at this; exact this.2.1
 
+/-- with `no_location` every `loc` of a parsed DOCUMENT (any flags otherwise) is absent -/
+theorem noloc_all_none_document (fl : Flags) (hf : fl.noLocation = true) (toks : List Tok) (d : Document)
+    (h : parseDocument fl toks = .ok d) : noLoc (documentV d) = true := by
+  obtain ⟨l', hm⟩ := (matches_iff _ _ _).1 (parse_sound_document fl toks d h).2
+  have := checkAll_noLoc fl hf _ _ _ _ _ hm
+  simp [noLocAll] at this; exact this
+
 /-- A CONSEQUENCE of the full `noloc_erasure` statement ("the `no_location` tree is the located tree with every
     `loc` erased"): accept/reject does not depend on `no_location`.  NOT PROVED (kept visible): it needs an `erase`
     function on the AST and `parse {fl with noLocation := true} toks = (parse fl toks).map erase`.  Proved above:
@@ -115,5 +122,19 @@ private def toksT : List Tok :=
 example : parseType {} toksT =
     .ok (.list (.nonNull (.named ⟨⟨[65], some (2, 3)⟩, some (2, 3)⟩) (some (2, 4))) (some (0, 6))) := rfl
 example : parseType { noLocation := true } toksT = .ok (.list (.nonNull (.named ⟨⟨[65], none⟩, none⟩) none) none) := rfl
+
+/-- `query ($foo: Int = 42 @bar) { foo }` (positions of the text): the VariableDefinition spans `$foo … @bar`
+    = (7, 26), i.e. it INCLUDES its directives; the operation spans (0, 35) -/
+private def toksQ : List Tok :=
+  [tk .sof 0 0, tk .name 0 5 [113, 117, 101, 114, 121], tk .parenL 6 7, tk .dollar 7 8, tk .name 8 11 [102, 111, 111],
+   tk .colon 11 12, tk .name 13 16 [73, 110, 116], tk .equals 17 18, tk .int 19 21 [52, 50], tk .atSign 22 23,
+   tk .name 23 26 [98, 97, 114], tk .parenR 26 27, tk .curlyL 28 29, tk .name 30 33 [102, 111, 111],
+   tk .curlyR 34 35, tk .eof 35 35]
+
+example : (parseDocument {} toksQ).toBool = true := by decide
+example : ∃ d, parseDocument {} toksQ = .ok d ∧
+    (match d.definitions with
+     | [.operation od] => od.loc = some (0, 35) ∧ (od.variableDefinitions.map (·.loc)) = [some (7, 26)]
+     | _ => False) := ⟨_, rfl, by decide⟩
 
 end PyGql.Props.C02
